@@ -26,7 +26,8 @@ pub fn md5(msg: &[u8]) -> Vec<u8> {
         7, 12, 17, 22, 7, 12, 17, 22, 7, 12, 17, 22, 7, 12, 17, 22, 5, 9, 14, 20, 5, 9, 14, 20, 5, 9, 14, 20, 5, 9, 14, 20, 4, 11, 16, 23, 4, 11, 16, 23, 4, 11, 16,
         23, 4, 11, 16, 23, 6, 10, 15, 21, 6, 10, 15, 21, 6, 10, 15, 21, 6, 10, 15, 21,
     ];
-    let k: Vec<u32> = (0..64).map(|i| ((i as f64 + 1.0).sin().abs() * 4294967296.0) as u64 as u32).collect();
+    static K: std::sync::OnceLock<Vec<u32>> = std::sync::OnceLock::new();
+    let k = K.get_or_init(|| (0..64).map(|i| ((i as f64 + 1.0).sin().abs() * 4294967296.0) as u64 as u32).collect());
     let (mut a0, mut b0, mut c0, mut d0) = (0x67452301u32, 0xefcdab89u32, 0x98badcfeu32, 0x10325476u32);
     let mut m = msg.to_vec();
     m.push(0x80);
@@ -141,10 +142,27 @@ fn root_frac(p: u64, k: u32, bits: u32) -> u128 {
     lo & ((1u128 << bits) - 1)
 }
 
+fn k256() -> &'static (Vec<u32>, Vec<u32>) {
+    static C: std::sync::OnceLock<(Vec<u32>, Vec<u32>)> = std::sync::OnceLock::new();
+    C.get_or_init(|| {
+        let pr = primes(64);
+        (pr.iter().map(|p| root_frac(*p, 3, 32) as u32).collect(), pr[..8].iter().map(|p| root_frac(*p, 2, 32) as u32).collect())
+    })
+}
+fn k512() -> &'static (Vec<u64>, Vec<u64>, Vec<u64>) {
+    static C: std::sync::OnceLock<(Vec<u64>, Vec<u64>, Vec<u64>)> = std::sync::OnceLock::new();
+    C.get_or_init(|| {
+        let pr = primes(80);
+        (
+            pr.iter().map(|p| root_frac(*p, 3, 64) as u64).collect(),
+            pr[..8].iter().map(|p| root_frac(*p, 2, 64) as u64).collect(),
+            pr[8..16].iter().map(|p| root_frac(*p, 2, 64) as u64).collect(),
+        )
+    })
+}
 pub fn sha256(msg: &[u8]) -> Vec<u8> {
-    let pr = primes(64);
-    let k: Vec<u32> = pr.iter().map(|p| root_frac(*p, 3, 32) as u32).collect();
-    let mut h: Vec<u32> = pr[..8].iter().map(|p| root_frac(*p, 2, 32) as u32).collect();
+    let k = &k256().0;
+    let mut h: Vec<u32> = k256().1.clone();
     let mut m = msg.to_vec();
     m.push(0x80);
     while m.len() % 64 != 56 {
@@ -179,8 +197,7 @@ pub fn sha256(msg: &[u8]) -> Vec<u8> {
 }
 
 fn sha512_core(msg: &[u8], init: Vec<u64>, outlen: usize) -> Vec<u8> {
-    let pr = primes(80);
-    let k: Vec<u64> = pr.iter().map(|p| root_frac(*p, 3, 64) as u64).collect();
+    let k = &k512().0;
     let mut h = init;
     let mut m = msg.to_vec();
     m.push(0x80);
@@ -218,12 +235,10 @@ fn sha512_core(msg: &[u8], init: Vec<u64>, outlen: usize) -> Vec<u8> {
     out[..outlen].to_vec()
 }
 pub fn sha512(msg: &[u8]) -> Vec<u8> {
-    let init: Vec<u64> = primes(8).iter().map(|p| root_frac(*p, 2, 64) as u64).collect();
-    sha512_core(msg, init, 64)
+    sha512_core(msg, k512().1.clone(), 64)
 }
 pub fn sha384(msg: &[u8]) -> Vec<u8> {
-    let init: Vec<u64> = primes(16)[8..].iter().map(|p| root_frac(*p, 2, 64) as u64).collect();
-    sha512_core(msg, init, 48)
+    sha512_core(msg, k512().2.clone(), 48)
 }
 
 // ------------------------------------------------------------------ AES (encryption direction only)
@@ -242,6 +257,10 @@ fn gmul(mut a: u8, mut b: u8) -> u8 {
     r
 }
 fn sbox() -> [u8; 256] {
+    static S: std::sync::OnceLock<[u8; 256]> = std::sync::OnceLock::new();
+    *S.get_or_init(sbox_compute)
+}
+fn sbox_compute() -> [u8; 256] {
     let mut s = [0u8; 256];
     for x in 0..256usize {
         // multiplicative inverse by search
@@ -308,10 +327,11 @@ impl AesEnc {
             if r != nr {
                 for c in 0..4 {
                     let a = [s[4 * c], s[4 * c + 1], s[4 * c + 2], s[4 * c + 3]];
-                    s[4 * c] = gmul(a[0], 2) ^ gmul(a[1], 3) ^ a[2] ^ a[3];
-                    s[4 * c + 1] = a[0] ^ gmul(a[1], 2) ^ gmul(a[2], 3) ^ a[3];
-                    s[4 * c + 2] = a[0] ^ a[1] ^ gmul(a[2], 2) ^ gmul(a[3], 3);
-                    s[4 * c + 3] = gmul(a[0], 3) ^ a[1] ^ a[2] ^ gmul(a[3], 2);
+                    let x = [xtime(a[0]), xtime(a[1]), xtime(a[2]), xtime(a[3])];
+                    s[4 * c] = x[0] ^ (x[1] ^ a[1]) ^ a[2] ^ a[3];
+                    s[4 * c + 1] = a[0] ^ x[1] ^ (x[2] ^ a[2]) ^ a[3];
+                    s[4 * c + 2] = a[0] ^ a[1] ^ x[2] ^ (x[3] ^ a[3]);
+                    s[4 * c + 3] = (x[0] ^ a[0]) ^ a[1] ^ a[2] ^ x[3];
                 }
             }
             for i in 0..16 {
